@@ -163,6 +163,10 @@ class Tr:
                 return lit_int(self.consts[e.id])
             raise Unsupported(f"name {e.id}")
         if isinstance(e, ast.Attribute):
+            if self.is_class_state(e):
+                if "cls." + e.attr in st:
+                    return st["cls." + e.attr]
+                raise Unsupported("class attribute read before it is an input: " + e.attr)
             if isinstance(e.value, ast.Name) and e.value.id == "self":
                 key = "self." + e.attr
                 if key in st:
@@ -719,6 +723,8 @@ class Tr:
             if commutative:
                 terms = sorted(terms)         # f(a, b) = f(b, a): arguments in text order
             term = f"{lean_fn} " + " ".join(terms)
+            if len(ext[qual]) > 4 and str(ext[qual][4]).startswith("suffix:"):
+                term += " " + ext[qual][4][7:]          # an input of the translated function handed through (randomness)
             if effectful:
                 return V(rkind, self.effect(sc, term, "r"))
             return V(rkind, term)
@@ -747,9 +753,19 @@ class Tr:
                     return True
         return False
 
+    def is_class_state(self, t):
+        """`Command._message_id` / `cls._message_id` / `self._message_id` for an attribute the spec declares as class-level
+        state (a counter shared by every instance)"""
+        return isinstance(t, ast.Attribute) and isinstance(t.value, ast.Name) and t.attr in self.spec.get("class_state", ()) \
+            and t.value.id in (self.spec.get("class_name"), "cls", "self", "type(self)") 
+
     def assign_target(self, t, v, st):
         if isinstance(t, ast.Name):
             st[t.id] = v
+        elif self.is_class_state(t):
+            if isinstance(t.value, ast.Name) and t.value.id == "self":
+                raise Unsupported("assignment through self would shadow the class attribute")
+            st["cls." + t.attr] = v
         elif isinstance(t, ast.Attribute) and isinstance(t.value, ast.Name) and t.value.id == "self":
             st["self." + t.attr] = v
         elif isinstance(t, ast.Tuple) and v.kind == "tuple" and len(t.elts) == len(v.items):
@@ -771,6 +787,8 @@ class Tr:
     def target_value(self, t, st):
         if isinstance(t, ast.Name) and t.id in st:
             return st[t.id]
+        if self.is_class_state(t) and "cls." + t.attr in st:
+            return st["cls." + t.attr]
         if isinstance(t, ast.Attribute) and isinstance(t.value, ast.Name) and t.value.id == "self" and "self." + t.attr in st:
             return st["self." + t.attr]
         raise Unsupported("read of unassigned target")
@@ -850,6 +868,14 @@ class Tr:
                 if name is None:
                     raise Unsupported("raise of a computed exception")
                 return f"Except.error {self.err_of(name)}"
+            if self.spec["out"][0] == "write" and isinstance(s, ast.Expr) and isinstance(s.value, ast.Call) \
+                    and isinstance(s.value.func, ast.Attribute) and s.value.func.attr == "write" \
+                    and isinstance(s.value.func.value, ast.Call) and isinstance(s.value.func.value.func, ast.Name) \
+                    and s.value.func.value.func.id == "super" and len(s.value.args) == 1 and not s.value.keywords:
+                if "emitted__" in st:
+                    raise Unsupported("more than one write to the transport")
+                st["emitted__"] = self.expr(s.value.args[0], st, sc)
+                continue
             if isinstance(s, ast.Expr) and isinstance(s.value, ast.Call) and isinstance(s.value.func, ast.Attribute) \
                     and s.value.func.attr == "append" and len(s.value.args) == 1:
                 cur = self.target_value(s.value.func.value, st)
@@ -1009,6 +1035,24 @@ class Tr:
             if buf is None or buf.kind != "bytes":
                 raise Unsupported("buffer is not bytes at the end of the iteration")
             return f"pure (some ({self.bytes_term(em)}, {self.bytes_term(buf)}))"
+        if out[0] == "value_state":
+            # returns an int and leaves a class-level integer attribute updated: (value, attribute afterwards)
+            v = self.expr(retexpr, st, sc)
+            stv = st.get(out[1])
+            if stv is None or stv.kind != "int":
+                raise Unsupported("state attribute is not an int at the return")
+            t = f"({to_int_term(v)}, {to_int_term(stv)})"
+            return ("pure " + t) if self.effectful else t
+        if out[0] == "write":
+            # a method that hands ONE byte string to `super().write(...)` and updates an integer attribute
+            if retexpr is not None and not (isinstance(retexpr, ast.Constant) and retexpr.value is None):
+                raise Unsupported("value returned from write()")
+            em, ctr = st.get("emitted__"), st.get(out[1])
+            if em is None or em.kind != "bytes":
+                raise Unsupported("write() does not hand exactly one byte string to the transport")
+            if ctr is None or ctr.kind != "int":
+                raise Unsupported("counter is not an int at the end of write()")
+            return f"pure ({self.bytes_term(em)}, {to_int_term(ctr)})"
         if out[0] == "unit":
             if retexpr is not None:
                 raise Unsupported("value returned from a procedure")
@@ -1051,7 +1095,7 @@ class Tr:
         st = {}
         params = []
         for name, k in self.spec["inputs"]:
-            lean_name = name.replace("self.", "").replace("call:", "")
+            lean_name = name.replace("self.", "").replace("call:", "").replace("cls.", "")
             if k == "bytes" and self.native:
                 st[name] = V("bytes", lean_name)
             elif k == "optbytes":
@@ -1228,6 +1272,13 @@ LAN_SPECS = [
          out=("value", "bytes"), rtype="R Bytes", effectful=True, native_bytes=True,
          externals={"Security.decrypt_aes_cbc": CBC_DEC, "strxor": ("Py.strxor", ["bytes", "bytes"], "bytes", True, "comm")},
          model="Model.getLocalKey key data"),
+    dict(name="writeV3", file=LAN, func=V3 + "write",
+         inputs=[("self._local_key", "optbytes"), ("self._packet_id", "int"), ("data", "bytes"), ("packet_type", "int"), ("call:rand", "bytes")],
+         kwonly=["packet_type"],
+         out=("write", "self._packet_id"), rtype="R (Bytes × Int)", effectful=True, native_bytes=True,
+         externals={"self._encode_encrypted_request": ("encodeEncryptedRequest _local_key", ["int", "bytes"], "bytes", True, "suffix:rand"),
+                    "self._encode_handshake_request": ("encodeHandshakeRequest", ["int", "bytes"], "bytes", True)},
+         model="Model.writeV3I _local_key _packet_id data packet_type rand"),
     dict(name="reasmStep", file=LAN, func=V3 + "data_received", inputs=[("buffer", "bytes")],
          loop_body=dict(state="_buffer", var="buffer", data="data", queue="_queue"),
          out=("step", "buffer"), rtype="R (Option (Bytes × Bytes))", effectful=True, native_bytes=True,
@@ -1263,6 +1314,13 @@ SPECS = [
          out=("unit",), rtype="R Unit", effectful=True,
          functions={"Frame.checksum": ("checksum", ["ints"], "int"), "cls.checksum": ("checksum", ["ints"], "int")},
          model="Model.frameValidate frame"),
+    dict(name="responseValidate", file=CMD, func="Response.validate", inputs=[("payload", "bytes")],
+         out=("unit",), rtype="R Unit", effectful=True,
+         functions={"crc8.calculate": ("crc8Calculate", ["ints"], "int"), "Frame.checksum": ("checksum", ["ints"], "int")},
+         model="Model.respValidate payload"),
+    dict(name="nextMessageId", file=CMD, func="Command._next_message_id", inputs=[("cls._message_id", "int")],
+         class_state=("_message_id",), out=("value_state", "cls._message_id"), rtype="Int × Int",
+         model="(((Model.nextMessageId _message_id.toNat).2.toNat : Int), ((Model.nextMessageId _message_id.toNat).1 : Int))"),
     dict(name="commandPayload", file=CMD, func="Command.tobytes", inputs=[("data", "bytes"), ("call:msg_id", "int")],
          call_inputs={"_next_message_id": "call:msg_id"},
          out=("super_arg", "tobytes"), rtype="R Bytes", effectful=True,
@@ -1418,8 +1476,12 @@ def translate_all(repo=None):
             argnames = [a.arg for a in fn.args.args]
             if argnames and argnames[0] in ("self", "cls"):
                 argnames = argnames[1:]
-            want = [n for n, _k in spec["inputs"] if not n.startswith("self.") and not n.startswith("call:")]
-            if argnames != want or fn.args.vararg or fn.args.kwarg or fn.args.kwonlyargs:
+            want = [n for n, _k in spec["inputs"] if not n.startswith("self.") and not n.startswith("call:") and not n.startswith("cls.")]
+            kwonly = [a.arg for a in fn.args.kwonlyargs]
+            if kwonly and kwonly == spec.get("kwonly"):
+                argnames = argnames + kwonly            # keyword-only parameters the spec names (their defaults are the callers' business)
+                kwonly = []
+            if argnames != want or fn.args.vararg or fn.args.kwarg or kwonly:
                 raise Unsupported(f"signature {argnames} (expected {want})")
             if spec.get("table_names"):
                 sp["tables"] = {}
@@ -1468,7 +1530,7 @@ def translate_all(repo=None):
             out.append(f"def {spec['name']}_translated : Bool := true\n\n")
         else:
             # alias of the model: the tie for this function is the correspondence check only
-            params = [f"({n.replace('self.', '').replace('call:', '')} : {LEAN_TYPES[k]})" for n, k in spec["inputs"]]
+            params = [f"({n.replace('self.', '').replace('call:', '').replace('cls.', '')} : {LEAN_TYPES[k]})" for n, k in spec["inputs"]]
             out.append(f"def {spec['name']} {' '.join(params)} : {spec['rtype']} :=\n  {spec['model']}\n")
             out.append(f"def {spec['name']}_translated : Bool := false\n\n")
     out.append("end Msmart.Generated.Codec\n")
